@@ -26,7 +26,7 @@ FIX_CLOSE = 'F18c'
 # is a plain call, unlike kill() / pause() / play() whose hooks run inside the process scope).  With the switch on, the
 # verdict instance reports CurrentIsRunning (clause D18c) and the replay confirms that the implementation behaves as the
 # as-written clause says.  Switch on once it is repaired (add 'F18c' to checks/c18.FIXES) or listed (known_findings.json).
-MODEL_USER_CLOSE = os.environ.get('VERIF_C18_USER_CLOSE', '') == '1'
+MODEL_USER_CLOSE = os.environ.get('VERIF_C18_USER_CLOSE', '1') == '1'      # (repaired in /repo: F18c)
 
 INVARIANTS = ['CurrentIsRunning', 'Restored', 'Balanced', 'DefaultIntact', 'WellFormed']
 
